@@ -38,12 +38,24 @@ def valid(op, items):
                   z3.Implies(z3.Or(op == "gt", op == "lt"), n == 1), z3.Implies(op == "range", n == 2))
 
 
+def valid0(op, items):
+    """what Port._items_to_ports is called with at most: as `valid`, but the operand of lt / gt / neq may also be 0, which the line parser accepts
+    (`lt 0` denotes no port, `gt 0` and `neq 0` every port); eq / range with operand 0 put port 0 into the list, outside the 1..65535 of the statement"""
+    n = S.length(items)
+    i, j = z3.Ints("i!v j!v")
+    low = z3.If(z3.Or(op == "eq", op == "range"), 1, 0)
+    return z3.And(z3.Or(*[op == o for o in OPS]), n >= 1,
+                  z3.ForAll([i], z3.Implies(z3.And(0 <= i, i < n), z3.And(low <= S.at(items, i), S.at(items, i) <= ALL))),
+                  z3.ForAll([i, j], z3.Implies(z3.And(0 <= i, i < j, j < n), S.at(items, i) <= S.at(items, j))),
+                  z3.Implies(z3.Or(op == "gt", op == "lt"), n == 1), z3.Implies(op == "range", n == 2))
+
+
 def ascending(L, strict=True):
     return S.asc_term(L, strict)
 
 
 c = contract("cisco_acl.port.Port._items_to_ports", dict(self=TObj("Port"), items=TList(TInt)), TList(TInt), props=("C08",))
-c.require("valid", lambda cx, self, items: valid(_op(cx, self), items))
+c.require("valid", lambda cx, self, items: valid0(_op(cx, self), items))
 c.ensure("sound", lambda cx, result, self, items: S.forall(0, S.length(result), lambda i: P(_op(cx, self), items, S.at(result, i))))
 c.ensure("complete", lambda cx, result, self, items: S.forall_int(lambda p: z3.Implies(P(_op(cx, self), items, p), _mem(result, p))))
 c.ensure("ascending", lambda cx, result, self, items: z3.And(ascending(result, strict=False),
